@@ -13,7 +13,7 @@ import numpy as np
 
 from ..index import AnchorMissing, Unrecognised
 from ..absval import Evaluator, Obj, MethodRunner, EvalRaised
-from ..astutil import u, body_walk, local_env, func_calls, walk_local, root_name
+from ..astutil import linear_body, u, body_walk, local_env, func_calls, walk_local, root_name
 from .. import sym
 
 EXPLANATION = ("Static analysis of the complement / translation / strand-selection source: the complement lookups and the codon table are constant-"
@@ -112,7 +112,7 @@ def r1_complement(ctx):
     ok = "isinstance(encoding, AlphabetEncoding)" in txt and "_get_alphabet_encoding_complement_lookup(encoding)" in txt and \
          "encoding == BaseEncoding" in txt and "_get_ascii_complement_lookup()" in txt
     ctx.ob(d.where, "lookup dispatch: alphabet encodings use the alphabet table built for that same encoding, ASCII uses the ASCII table, anything else raises",
-           ok and isinstance(d.node.body[-1], ast.Raise), "")
+           ok and isinstance(linear_body(d.node)[-1], ast.Raise), "")
     # complement(): lookup applied to the flat data, original shape re-attached
     c = ctx.index.func(DNA, "complement")
     p = c.params[0]
